@@ -7,6 +7,7 @@ from bsrules.lib import *
 META = {
     "explanation": (
         "Static analysis over rustc MIR. Decides dispatch agreement, exhaustively over the 9 expression variants and 3 prefix characters: in DqeExecutor::apply_dqe each operator variant (Field, Index, Slice, Deref, Address, Canonic) applies exactly the same-named Value operator to the results of the recursive evaluation of its own inner expression, with its own operands in order, and the three leaf variants go to their evaluators; in the parser `*` builds Deref, `&` builds Address, `~` builds Canonic, `.f` builds Field, `[lit]` Index and `[a..b]` Slice(a, b) around the expression parsed so far."
+        " Also: slice/index algebra (positional selection, pointer-slice arithmetic), composite literal arity compared before element-wise matching, integer payloads compared with the literal without wrapping casts."
     ),
     "not_decided": "operator precedence, slice arithmetic, key matching, canonical-text round trip (value- and text-level)",
     "assumptions": [],
